@@ -226,7 +226,7 @@ def punct_tree(rng):
     pair_heavy = rng.random() < 0.5
     punct = (gen.PAIRPUNCT * 3 + gen.COMMA) if pair_heavy else gen.PUNCT
     pools = gen.Pools(p_punct=dens, punct=punct,
-                      pos=gen.POS + ['PRELS', 'PRELS'])
+                      pos=gen.POS + ['PRELS', 'PRELS', 'PRELSAT', 'PRELSAT'])
     n = rng.choice([2, 3, 4, 5, 6, 8, 12]) if rng.random() < 0.7 \
         else rng.randint(1, 30)
     spec = gen.tree(rng, n, pools, max_arity=rng.choice([2, 3, 4, 6]),
